@@ -164,6 +164,7 @@ var assumptionText = map[string]string{
 	"A-KEY":         "A-KEY: defs.Type.String() together with the Go type determines the defs.Type tree (ttypes cache key injective)",
 	"A-HACK":        "A-HACK: the layout hacks of hack.go (rvWithPtr, rvPtr, rvTypePtr, rtTypePtr, updateIface, mapIter, maplen, sliceHeader.Zero) do what their comments say (frugal validates them at init); given assumed contracts",
 	"A-APPEND":      "A-APPEND: where the output buffer is treated as an abstract byte sequence, Go's append is sequence extension; its concrete reading (same array while the result fits the capacity, a fresh array otherwise; writes only into the spare capacity [ptr+len,ptr+cap) or fresh memory) is assumed at the boundary to concrete callers, and the spare capacity is assumed disjoint from the value being encoded",
+	"A-SIZE":        "A-SIZE: containers hold fewer than 2^31 elements (the count on the wire is the 32-bit truncation of the live length); a single in-memory element is at most 64 KiB",
 	"A-COMPOSE":     "A-COMPOSE: the step from per-function contracts to the whole-message statement is a structural induction over the descriptor tree written in DESIGN.md, not mechanised",
 	"A-WF":          "A-WF: descriptors handed to the codec satisfy wfT/wfSD/wfF as axiomatised in contracts_verif.go; the constructors (newTType, fromDefsFields, ...) are not yet proved to establish them",
 	"A-SOLVER":      "A-SOLVER: an 'unsat' answer of z3 5.1.0 / z3 4.8.12 / cvc5 1.0.3 is correct (recursive definitions are axiomatised, not define-fun-rec, after a spurious unsat was observed; every function's assumption set is checked not to be refutable on every run)",
@@ -471,6 +472,11 @@ func cmdProp(args []string) int {
 		}
 	}
 	assumptions = append(assumptions, tb...)
+	for _, fv := range fvs {
+		if fv.MathInt {
+			assumptions = append(assumptions, "A-MATHINT: signed additions/multiplications of "+fv.Key+" are treated as mathematical (no overflow obligation; sizes stay far below 2^63)")
+		}
+	}
 	var funcs []map[string]interface{}
 	for _, k := range ps.Functions {
 		funcs = append(funcs, map[string]interface{}{"function": k, "obligations": nFuncObl[k]})
